@@ -113,7 +113,10 @@ class Geometric(DiscreteRandomVariable):
         return 1/self.p
 
     def sample(self):
-        return math.ceil(math.log(1-unit())/math.log(1-self.p))
+        if self.p == 1:
+            return 1
+        # The number of trials is at least 1 (unit() may return exactly 0).
+        return max(1, math.ceil(math.log(1-unit())/math.log(1-self.p)))
 
     def __str__(self):
         return f"Geometric(p={self.p})"
